@@ -32,6 +32,9 @@ from typedpy import (AllOf, AnyOf, Array, Deque, Deserializer, ImmutableSet, Int
 
 from typedpy.structures import Field, TypedPyDefaults
 from typedpy import DateField, DateTime, Enum, ImmutableStructure, mappers
+from typedpy import DecimalNumber
+from typedpy.extfields import TimeField
+import decimal
 from typedpy import serialize as tp_serialize
 
 from extract import shared_writes as SW
@@ -89,6 +92,14 @@ def _build_tables():
 
 
 _build_tables()
+
+# CPython pre-empts between BYTECODES: the instructions through which a function can read or write state that other
+# threads see (attributes, items, globals, `in` tests, calls - setattr / getattr / dict methods / callees)
+import dis as _dis
+HOT_OPS = frozenset(_dis.opmap[n] for n in (
+    "LOAD_ATTR", "STORE_ATTR", "DELETE_ATTR", "BINARY_SUBSCR", "STORE_SUBSCR", "DELETE_SUBSCR", "CALL", "CALL_FUNCTION_EX",
+    "STORE_GLOBAL", "DELETE_GLOBAL", "CONTAINS_OP", "LOAD_SUPER_ATTR", "BINARY_SLICE", "STORE_SLICE", "FOR_ITER", "LOAD_DEREF",
+    "STORE_DEREF") if n in _dis.opmap)
 
 # ------------------------------------------------------------------ values on the wire
 
@@ -151,6 +162,10 @@ def canon(v):
         return {"date": v.isoformat()}
     if isinstance(v, pyenum.Enum):
         return {"enum": v.name}
+    if isinstance(v, datetime.time):
+        return {"time": v.isoformat()}
+    if isinstance(v, decimal.Decimal):
+        return {"decimal": str(v)}
     if isinstance(v, Structure):
         return {"struct": type(v).__name__,
                 "fields": {k: canon(getattr(v, k, None)) for k in sorted(type(v).get_all_fields_by_name())}}
@@ -409,6 +424,17 @@ def _build_shape(name):
              "class Customer(Structure):\n    name: str\n    visits: int = 0\n"
              "    address: Address = Address(city='Paris', zip_code='75001')\n", ns)  # pylint: disable=exec-used
         return Shape(name, ns["Customer"])
+    if name == "warm_ser":
+        # scalar SerializableFields: their deserialize / serialize / __set__ run on the field object shared by all instances
+        class Booking(Structure):
+            day = DateField
+            at = DateTime
+            t = TimeField
+            amount = DecimalNumber
+            color = Enum[Color]
+            n = Integer
+            _required = []
+        return Shape(name, Booking)
     if name == "mapper_hist":
         class Order(Structure):
             order_id = Integer
@@ -669,6 +695,14 @@ def gen_value(rng, sname, field, bad=0.2):
         return {"d": {"code": "C" + str(_BASE[0]), "digits": _int(rng, 0.0)}} if field in ("currency", "fallback") else _int(rng, 0.0)
     if sname == "shared_default":
         return {"name": "n" + str(_BASE[0]), "visits": _int(rng, 0.0)}[field]
+    if sname == "warm_ser":
+        # documents: everything as the strings / numbers a JSON document carries
+        return {"day": lambda: "2024-%02d-%02d" % (rng.randint(1, 12), rng.randint(1, 28)),
+                "at": lambda: "%02d/%02d/24 01:02:03" % (rng.randint(1, 12), rng.randint(1, 28)),
+                "t": lambda: "%02d:%02d:00" % (rng.randint(0, 23), rng.randint(0, 59)),
+                "amount": lambda: "%d.%02d" % (rng.randint(0, 99), rng.randint(0, 99)),
+                "color": lambda: rng.choice(["RED", "GREEN", "BLUE"]),
+                "n": lambda: _int(rng, 0.0)}[field]()
     if sname == "mapper_hist":
         return "nt" + str(_BASE[0]) if field == "note" else _int(rng, 0.0)
     if sname in SER_SHAPES:
@@ -890,7 +924,12 @@ class Run:
                 r = 1
             elif self.scope == "fieldlines":
                 # every line of the field implementations and of the generic __set__ / _validate / __setattr__ code
-                r = 1 if (os.sep + "fields" + os.sep in fn or code.co_name in ("__set__", "_validate", "__setattr__")) else 0
+                r = 1 if (os.sep + "fields" + os.sep in fn or os.sep + "extfields" + os.sep in fn
+                          or code.co_name in ("__set__", "_validate", "__setattr__", "deserialize", "serialize")) else 0
+            elif self.scope == "serlines":
+                # the code that runs ON a shared SerializableField object: extfields/, every deserialize / serialize method
+                r = 1 if (os.sep + "extfields" + os.sep in fn or code.co_name in ("deserialize", "serialize")
+                          or (fn, code.co_firstlineno) in SITEFUNCS) else 0
             else:
                 r = 1 if (fn, code.co_firstlineno) in SITEFUNCS else 0
             self._codes[code] = r
@@ -899,6 +938,8 @@ class Run:
     def tracer(self, tid):
         evlines = EVLINES
         events_only = self.scope == "events"   # "sitelines": every line of a site function is a yield point
+        opcodes = self.scope == "siteops"      # "siteops": additionally every bytecode of a site function that can touch
+        hot = HOT_OPS                          # shared state (attribute / item / global access, calls) is a yield point
 
         last = [None, 0]
 
@@ -917,12 +958,20 @@ class Run:
                 if evs is None and events_only:
                     return local
                 self.yield_point(tid, frame, evs)
+            elif event == "opcode":
+                code = frame.f_code
+                if code.co_code[frame.f_lasti] in hot:
+                    self.yield_point(tid, frame, None)
             elif event == "return":
                 last[0] = None
             return local
 
         def g(frame, event, arg):
-            return local if self._in_scope(frame.f_code) else None
+            if not self._in_scope(frame.f_code):
+                return None
+            if opcodes:
+                frame.f_trace_opcodes = True
+            return local
         return g
 
     def yield_point(self, tid, frame, evs):
@@ -1123,10 +1172,18 @@ def set_modes(m):
             setattr(TypedPyDefaults, k, v)
 
 
+def run_history(case, sh):
+    """operations that ran (sequentially, to completion) before the concurrent ones: whatever they left in shared objects"""
+    if case.get("history"):
+        for op in build_ops({"shape": case["shape"], "threads": case["history"]}, sh):
+            outcome_of(op)
+
+
 def run_schedule(case, sched, scope):
     for attempt in (0, 1):
         sh = run_shape(case["shape"])
         reset_caches(sh)
+        run_history(case, sh)
         if case.get("warmup"):
             conts, snap, _ = warm_history(case)
             _restore(conts, snap)
@@ -1156,6 +1213,7 @@ def sequential(case):
     for perm in itertools.permutations(range(n)):
         sh = run_shape(case["shape"])
         reset_caches(sh)
+        run_history(case, sh)
         if case.get("warmup"):
             conts, snap, _ = warm_history(case)
             _restore(conts, snap)
@@ -1748,6 +1806,32 @@ def gen_cases(rng, tier, scale=1.0):
                 ths.append({"op": op, "kw": {g: gen_value(rng, sname, g, bad=0.0 if op == "serialize" else 0.1) for g in fs}})
         cases.append({"stream": "B", "shape": sname, "threads": ths, "sseed": rng.randrange(1 << 30),
                       "max_pre": max_pre, "nsched": 30 if quick else 100})
+    # scalar SerializableFields (DateField / DateTime / TimeField / DecimalNumber / Enum): both threads handle EQUAL inputs
+    # (the records of one day) after a HISTORY in which the same fields handled other values; exhaustive single
+    # pre-emption at every line of extfields/ and of every deserialize / serialize method
+    for k in range(3 if quick else 10):
+        fs = [f for f in fields_of("warm_ser") if f != "n"]
+        pick = rng.sample(fs, 3 if quick else rng.randint(1, 4))
+        _BASE[0] = 0
+        same = {f: gen_value(rng, "warm_ser", f) for f in pick}
+        hist = {f: gen_value(rng, "warm_ser", f) for f in pick}
+        ths = []
+        for i in range(2):
+            _BASE[0] = i
+            op = rng.choice(["construct", "deserialize"])
+            ths.append({"op": op, "kw": dict(same, n=_int(rng, 0.0))})
+        cases.append({"stream": "E", "shape": "warm_ser", "threads": ths, "sseed": rng.randrange(1 << 30), "max_pre": 1,
+                      "cap": 400, "yield": "serlines",
+                      "history": [{"op": rng.choice(["construct", "deserialize"]), "kw": dict(hist, n=0)}]})
+    # BYTECODE-level pre-emption inside the functions of the shared-write table (CPython's real granularity): every
+    # attribute / item / global access and call of a site function is a yield point; exhaustive for one pre-emption
+    # (quick) / two (thorough); oracle only
+    ops_shapes = [x for x in A_SHAPES + A2_SHAPES if shape(x).racy or x in ("array_two_fields", "anyof", "immset")]
+    for sname in (rng.sample(ops_shapes, 5) if quick else ops_shapes):
+        add("E", sname, 2, max_pre=1 if quick else 2, cap=250 if quick else 300, **{"yield": "siteops"})
+    for sname in (rng.sample(COLD_SHAPES, 1) if quick else COLD_SHAPES):
+        for ops in ([["deserialize", "deserialize"]] if quick else [["deserialize", "deserialize"], ["serialize", "serialize"]]):
+            add_ops("E", sname, ops, max_pre=1, cap=400, **{"yield": "siteops"})
     reps_b = max(1, int((1 if quick else 4) * scale))
     for sname in (rng.sample(ALL_SHAPES, 14) if quick else ALL_SHAPES):
         for _ in range(reps_b):
